@@ -3,6 +3,7 @@
 Op vocabulary (`o=<slot>` 0..1, default 0):
   new cap=N | new_default | destroy (every live queue) | destroy_cb | enqueue v | poll [noout=1] | peek
   size | foreach | it_new it_next it_replace v | zit_new o=a o2=b  zit_next  zit_replace v w
+Constructor lines take `obs=sparse` and `phys=quiet` (see gens_deque).  `scale(rng, tier)`: few long histories.
 C09 names iteration / zip iteration on the adapters, so focus=None includes them.  `fail=` appears only
 with focus="all"; focus="fault" emits growth-heavy histories for the runner's refusal enumeration.
 """
@@ -124,6 +125,12 @@ class QueueGen:
                 out.append([f"new cap={cap}", f"new cap={cap} o=1", "enqueue 1", "zit_new o=0 o2=1", "zit_replace 3 4",
                             "zit_next", "enqueue 2 o=1", "zit_new o=0 o2=1", "zit_replace 3 4", "zit_next", "zit_replace 5 6",
                             "zit_next", "destroy"])
+        # constructor capacities around powers of two beyond 8 bits: rounding must give the next power of two and the
+        # ring must not alias (first slots, then a lap around the ring)
+        for cc in (255, 256, 257, 300, 513, 1000, 1025, 4097, 4100):
+            lap = min(upper_pow_two(cc), 600)
+            out.append([f"new cap={cc} phys=quiet"] + [f"enqueue {i + 1}" for i in range(6)] + ["peek", "poll", "observe"] +
+                       [x for i in range(lap) for x in (f"enqueue {100 + i}", "poll")][:2 * lap] + ["observe", "peek", "destroy"])
         out.append(["new_default", "enqueue 1", "enqueue 2", "poll", "peek", "poll", "poll", "destroy"])
         # default constructor = C library triple for the header, the inner deque and every re-allocation
         out.append(["new_default"] + [f"enqueue {i}" for i in range(1, 20)] + ["poll"] * 5 +
@@ -142,6 +149,112 @@ class QueueGen:
                         out.append(pre + ["zit_new o=0 o2=0"] + ["zit_next"] * k + ["zit_replace 7 8"] +
                                    ["zit_next"] * (s - k + 1) + ["enqueue 9", "poll", "destroy"])
         return out
+
+    SCALE_CAPS = [1, 7, 8, 9, 255, 256, 257, 300, 513, 1000, 1023, 1024, 1025, 4100]
+
+    def scale(self, rng, tier):
+        """few LONG histories (ROUND12 A): constructor capacities around powers of two up to 4100, 600-1500 live
+        elements, then several hundred enqueue / poll / peek calls, cursor sweeps with replacements interleaved with
+        direct calls, aliased and two-queue zips, foreach.  `obs=sparse phys=quiet`, `observe` every ~50 ops."""
+        if tier == "quick":
+            caps = [rng.choice([257, 513]), 4100, rng.choice([c for c in self.SCALE_CAPS if c not in (257, 513, 4100)])]
+        else:
+            caps = [self.SCALE_CAPS[i % len(self.SCALE_CAPS)] for i in range(24)]
+        return [self.scale_history(rng, cc) for cc in caps]
+
+    def scale_history(self, rng, cc):
+        q = Sim(cc)                  # items: iteration view, newest first
+        ops = [f"new cap={cc} obs=sparse phys=quiet"]
+        since = [0]
+        v = [0]
+
+        def tick():
+            since[0] += 1
+            if since[0] >= 50:
+                ops.append("observe")
+                since[0] = 0
+
+        def enq():
+            v[0] += 1
+            x = v[0] if rng.random() < 0.97 else pick_value(rng)
+            if q.grows():
+                q.grow()
+            q.items.insert(0, x)
+            ops.append(f"enqueue {x}")
+            tick()
+
+        def poll():
+            if q.items:
+                q.items.pop()
+            ops.append("poll" + (" noout=1" if rng.random() < 0.1 else ""))
+            tick()
+
+        target = rng.choice([rng.randint(600, 1500), rng.randint(1100, 1300), 1024])
+        while len(q.items) < target:
+            if rng.random() < 0.15:
+                poll()                       # the ring rotates while it fills
+            else:
+                enq()
+            if rng.random() < 0.01:
+                ops.append("peek")
+        ops += ["observe", "peek", "size"]
+        for _ in range(rng.randint(300, 500)):          # steady state: the ring laps around
+            r = rng.random()
+            if r < 0.45:
+                enq()
+            elif r < 0.9:
+                poll()
+            else:
+                ops.append(rng.choice(["peek", "size"]))
+        ops.append("observe")
+        # cursor sweep, newest first, a replacement every few dozen yields, direct calls behind the cursor's back
+        ops.append("it_new")
+        pos, k, gap = 0, 0, rng.randint(8, 40)
+        while pos < len(q.items):
+            ops.append("it_next")
+            pos += 1
+            k += 1
+            if k % gap == 0:
+                v[0] += 1
+                q.items[pos - 1] = v[0]
+                ops.append(f"it_replace {v[0]}")
+                if rng.random() < 0.3:
+                    if rng.random() < 0.5:
+                        enq()
+                    else:
+                        poll()
+            tick()
+        ops += ["it_next", "observe"]
+        for _ in range(rng.randint(2, 30)):             # shorten the queue far behind the cursor: replace is rejected
+            poll()
+        ops += ["it_replace 5", "it_next", "observe", "foreach"]
+        # zips: aliased, and against a second queue whose capacity is just above a power of two as well
+        ops += ["zit_new o=0 o2=0"]
+        for j in range(min(len(q.items), 40)):
+            ops.append("zit_next")
+            if j % 7 == 3:
+                v[0] += 1
+                q.items[j] = v[0]                       # aliased replace leaves the second value
+                ops.append(f"zit_replace {v[0] + 5000} {v[0]}")
+        c2 = rng.choice([33, 257, 300])
+        ops.append(f"new cap={c2} o=1")
+        q2 = Sim(c2)
+        for j in range(rng.randint(20, 60)):
+            q2.items.insert(0, 9000 + j)
+            ops.append(f"enqueue {9000 + j} o=1")
+        a, b = rng.choice([(0, 1), (1, 0)])
+        ops.append(f"zit_new o={a} o2={b}")
+        for j in range(min(len(q.items), len(q2.items)) + 1):
+            ops.append("zit_next")
+            if j % 9 == 4 and j < min(len(q.items), len(q2.items)):
+                ops.append(f"zit_replace {70000 + j} {80000 + j}")
+                (q, q2)[a].items[j] = 70000 + j
+                (q, q2)[b].items[j] = 80000 + j
+        ops += ["observe", "destroy_cb o=1"]
+        while len(q.items) > 5:                         # drain: strict FIFO down to the last elements
+            poll()
+        ops += ["observe", "peek", "poll", "poll", "poll", "poll", "poll", "poll", "peek", "enqueue 1", "peek", "observe", "destroy"]
+        return ops
 
     def fault_seeds(self, tier):
         return sparse_third(self._fault_seeds(tier), 777)
@@ -164,6 +277,8 @@ class QueueGen:
         out = []
         for _ in range(n):
             cc = rng.choice([0, 1, 2, 3, 4, 5, 7, 8, 9, 16, 17])
+            if rng.random() < 0.03:
+                cc = rng.choice([33, 65, 129, 255, 257, 300])     # capacity rounding beyond one byte (dump of <= 512 slots)
             sims = [Sim(cc), None]
             ops = [f"new cap={cc}"]
             default_obj = False
@@ -189,14 +304,39 @@ class QueueGen:
                 r = rng.random() if focus != "growth" else (0.05 if rng.random() < 0.01 else max(rng.random(), 0.061))
                 q = sims[0]
                 if r < 0.04:
+                    # cursor = (index, flag) as in the library; between two nexts, with probability 0.2, direct calls
+                    # on the queue being walked (ROUND12 C): enqueue shifts the view, poll shortens it behind the cursor
                     ops.append("it_new")
+                    pos = 0
+                    mixed = rng.random() < 0.5
                     if focus in ("reject", "all") and rng.random() < 0.5:
                         ops.append(f"it_replace {pick_value(rng)}")     # before the first next: rejected, inert
-                    for j in range(len(q.items) + 1):
+                    for _ in range(len(q.items) + 12):
+                        if mixed and rng.random() < 0.2:
+                            for _ in range(rng.choice([1, 1, 2, 3])):
+                                if rng.random() < 0.4:
+                                    v = pick_value(rng)
+                                    if q.grows():
+                                        q.grow()
+                                    q.items.insert(0, v)
+                                    ops.append(f"enqueue {v}")
+                                else:
+                                    if q.items:
+                                        q.items.pop()
+                                    ops.append("poll" + (" noout=1" if rng.random() < 0.3 else ""))
                         ops.append("it_next")
-                        if j < len(q.items) and rng.random() < 0.3:
+                        if pos < len(q.items):
+                            pos += 1
+                        elif not mixed or rng.random() < 0.5:
+                            if pos > len(q.items) or rng.random() < 0.3:
+                                ops.append(f"it_replace 3")          # behind the end: rejected (pos-1 >= size), or the last one
+                                if 1 <= pos <= len(q.items):
+                                    q.items[pos - 1] = 3
+                            break
+                        if rng.random() < 0.3:
                             v = pick_value(rng)
-                            q.items[j] = v
+                            if 1 <= pos <= len(q.items):
+                                q.items[pos - 1] = v
                             ops.append(f"it_replace {v}" + (" noout=1" if rng.random() < 0.2 else ""))
                     if rng.random() < 0.3:
                         ops.append("it_next")
